@@ -755,10 +755,16 @@ impl<'a, 'tcx> HirDump<'a, 'tcx> {
                 f.push(("k", s("Ref")));
                 f.push(("pat", self.pat(x)));
             }
-            hir::PatKind::Expr(e) => {
-                f.push(("k", s("Lit")));
-                f.push(("str", s(self.snippet(e.span))));
-            }
+            hir::PatKind::Expr(e) => match &e.kind {
+                hir::PatExprKind::Path(qp) => {
+                    f.push(("k", s("PathPat")));
+                    f.extend(self.qpath(qp, e.hir_id));
+                }
+                _ => {
+                    f.push(("k", s("Lit")));
+                    f.push(("str", s(self.snippet(e.span))));
+                }
+            },
             hir::PatKind::Guard(x, e) => {
                 f.push(("k", s("Guard")));
                 f.push(("pat", self.pat(x)));
